@@ -291,9 +291,10 @@ A_ROUT_SMALL = dict(Leaves=["i1", "au0"], UnOps=[], BinOps=["-"], Stmts=["Store"
 A_REF = dict(Leaves=["i1", "au0"], UnOps=[], BinOps=[], Stmts=["Store"], Ctrl=["Seq2", "VSeq"], NVarsU=1, NVarsB=0, NLocals=0)
 A_ROUTLOOP = dict(Leaves=["i1", "au0"], UnOps=[], BinOps=[], Stmts=["Return", "Nop", "LogU"], Ctrl=["While", "Seq2", "If2", "If3", "IfMixed", "VSeq"],
                   NVarsU=0, NVarsB=0, NLocals=0)
+A_REFIF = dict(Leaves=["i1", "au0"], UnOps=[], BinOps=["+"], Stmts=["Store", "RefMacros", "LogU"], Ctrl=["VSeq", "Seq2"], NVarsU=1, NVarsB=0, NLocals=0)
 A_IFCHAIN = dict(Leaves=["i1", "au0"], UnOps=[], BinOps=[], Stmts=["Return"], Ctrl=["If2", "If3", "IfMixed", "VSeq"], NVarsU=0, NVarsB=0, NLocals=0)
 # (catalogue entry, alphabet, node budget quick, node budget thorough)
-SIG_PLANS = [("g_n1", A_IFCHAIN, 10, 11), ("g_n1", A_ROUTLOOP, 7, 8), ("g_u1", A_ROUTLOOP, 6, 8), ("g_u1", A_ROUT, 6, 8), ("g_u2", A_ROUT, 6, 8), ("g_n1", A_ROUT, 6, 8), ("g_u1_n1", A_ROUT_SMALL, 7, 9),
+SIG_PLANS = [("g_n1", A_IFCHAIN, 10, 11), ("g_ur", A_REFIF, 7, 8), ("g_nr", A_REFIF, 7, 8), ("g_n1", A_ROUTLOOP, 7, 8), ("g_u1", A_ROUTLOOP, 6, 8), ("g_u1", A_ROUT, 6, 8), ("g_u2", A_ROUT, 6, 8), ("g_n1", A_ROUT, 6, 8), ("g_u1_n1", A_ROUT_SMALL, 7, 9),
              ("g_n2_u1", A_ROUT_SMALL, 7, 9), ("g_u1_u2", A_ROUT_SMALL, 7, 8), ("g_nr", A_ROUT, 6, 8), ("g_ur", A_ROUT, 6, 8),
              ("g_nr_u1", A_ROUT_SMALL, 7, 9), ("g_nrv", A_REF, 9, 10), ("g_nr_nr", A_REF, 9, 10), ("g_nrv_nr", A_REF, 9, 10)]
 SIG_PLANS_THOROUGH_ONLY = [("g_u3", A_ROUT, 0, 7), ("g_n2", A_ROUT, 0, 8), ("g_b1", A_ROUT, 0, 8), ("g_u2_b1", A_ROUT_SMALL, 0, 9),
@@ -324,7 +325,7 @@ def c02_programs(tier, seed, rnd, alpha=None, caps=None):
         c["MaxNodes"] = nq if q else nt
         c["SigsName"] = sg
         rs, res = gen.run_builder(c, "c02_%s_%d" % (sg, c["MaxNodes"] * 100 + len(c["Stmts"]) * 10 + len(c["Ctrl"])), workers=4, timeout=1500, main_calls=True,
-                                  cap=(min((caps or (6000, 400))[0], 6000 if al is A_REF else 900) if (al is A_REF or al is A_ROUTLOOP or al is A_IFCHAIN) else (caps or (6000, 400))[1]) if q else (caps or (8000, 8000))[0],
+                                  cap=(min((caps or (6000, 400))[0], 6000 if al is A_REF else 2500 if al is A_REFIF else 900) if (al is A_REF or al is A_ROUTLOOP or al is A_IFCHAIN or al is A_REFIF) else (caps or (6000, 400))[1]) if q else (caps or (8000, 8000))[0],
                                   rnd=random.Random(seed))
         return sg, c, rs, res
 
